@@ -92,9 +92,9 @@ def run(res):
     bins = core.build_parallel(VARIANTS)
     rng = core.rng_for(res.seed, "c10")
     items = []
-    progs = tw.corpus_programs(res.seed, 1500 if thorough else 100) + tw.generated_programs(res.seed, 12000 if thorough else 1200)
+    progs = tw.corpus_programs(res.seed, 1500 if thorough else 200) + tw.generated_programs(res.seed, 12000 if thorough else 4000)
     from .. import pep695
-    for i in range(res.seed * 1000, res.seed * 1000 + (1500 if thorough else 150)):
+    for i in range(res.seed * 1000, res.seed * 1000 + (1500 if thorough else 500)):
         b = pep695.build(i)
         if b:
             progs.append(("pep695:%d" % i, b[0]))
@@ -107,7 +107,7 @@ def run(res):
             if len(text) < 4000:
                 for m in c09.mutations(text, rng, 2):
                     items.append((tag + ":mut", m, rng.choice(["exec", "single", "eval"])))
-    for tag, text in tw.generated_expressions(res.seed, 4000 if thorough else 400):
+    for tag, text in tw.generated_expressions(res.seed, 4000 if thorough else 1500):
         items.append((tag, text, "eval"))
     for i, s in enumerate(SOFT_COMMENTS):
         for mode in ("exec", "single"):
